@@ -451,6 +451,23 @@ def run(ctx):
         r4.undecidable("whole-value", "cannot enumerate the processor's paths: %s" % e4)
     r4.floor(1, "whole-value")
 
+    # ---------------- R5 the number-pad option is the value the front end set
+    r5 = chk.rule("C04.R5", "the number-pad option is a plain stored value", "number-pad keys produce layout text only while the fixed-numpad option is on")
+    common.plain_options(r5, prog, ["get_fixed_numpad"])
+    r5.floor(1, "the option")
+
+    # ---------------- R6 the table is the file's
+    r6 = chk.rule("C04.R6", "the layout table is the layout file's key map as deserialised (nothing completed, pruned or rewritten after loading)",
+                  "pressing a key appends exactly the string the layout file assigns …; keys with an empty or missing assignment change nothing")
+    lay = "fixed::layout::Layout"
+    parse = [k for k, f in prog.fns.items() if ((f.get("impl") or {}).get("self") or "") == lay and not (f.get("impl") or {}).get("trait")
+             and (f.get("output") or "").startswith("std::option::Option<") and f.get("inputs") and "serde_json" in f["inputs"][0]]
+    if len(parse) != 1:
+        r6.undecidable("load", "the layout parser (Layout fn(serde_json::Value) -> Option<Self>) was not found uniquely: %s" % parse)
+    else:
+        common.verbatim_loads(r6, prog, parse[0], lay, [fl["name"] for fl in prog.struct_fields(lay)], "key map")
+    r6.floor(1, "the key map")
+
 
 def _explicit_filter(prog, helper, is_np):
     """Explicit-match form of the helpers: every path returning a value must have seen get()==Some ∧ ¬is_empty (∧ numpad);
